@@ -44,7 +44,7 @@ class C15(Check):
     quick_budget_s = 75.0
     thorough_budget_s = 1200.0
     per_run_timeout_s = 25.0
-    rule = ("case = truth-only special-perturbations scenario with one finite burn/maneuver whose [start, end] is placed relative to the step grid "
+    rule = ("case = truth-only special-perturbations scenario with one finite burn/maneuver (40 %: a second one on the same target, back to back / after a pause / steps later) whose [start, end] is placed relative to the step grid "
             "(inside a step, spanning steps, on boundaries, at the scenario start); non-trivial = the burn interval intersects the simulated span; "
             "distinct = digest of (time block, event, force model)")
     assumptions = [
@@ -102,20 +102,39 @@ class C15(Check):
                   "maneuver_type": rng.choice(["spiral", "plane_change"]), "planned": False}
         ev["start_time"] = fmt_ts(S + dt.timedelta(seconds=ts))
         ev["end_time"] = fmt_ts(S + dt.timedelta(seconds=te))
+        evs = [ev]
+        if rng.random() < 0.4:
+            # a second thrust on the same target after the first: back to back, after a short pause inside the same step, or steps later
+            gap = rng.choice([0.0, 0.0, 0.0, float(rng.randrange(1, step)), float(rng.randrange(1, step)), float(step * rng.randrange(1, 3)), rng.uniform(0.25, 2 * step)])
+            ts2 = round(te + gap, 6)
+            dur = rng.choice([float(rng.randrange(1, step)), float(step), float(rng.randrange(1, 3 * step)), rng.uniform(0.5, 2 * step)])
+            if rng.random() < 0.3:
+                dur = max(0.5, (int(ts2 // step) + rng.randrange(1, 3)) * step - ts2)      # ends exactly on a boundary
+            te2 = round(ts2 + dur, 6)
+            if rng.random() < 0.7:
+                ev2 = {"scope": "agent_propagation", "scope_instance_id": 10001, "event_type": "finite_burn", "acc_vector": [rng.uniform(-1, 1) * 10 ** rng.uniform(-7, -5) for _ in range(3)],
+                       "thrust_frame": rng.choice(["eci", "ntw"]), "planned": False}
+            else:
+                ev2 = {"scope": "agent_propagation", "scope_instance_id": 10001, "event_type": "finite_maneuver", "maneuver_mag": rng.choice([1, -1]) * 10 ** rng.uniform(-7, -5),
+                       "maneuver_type": rng.choice(["spiral", "plane_change"]), "planned": False}
+            ev2["start_time"] = fmt_ts(S + dt.timedelta(seconds=ts2))
+            ev2["end_time"] = fmt_ts(S + dt.timedelta(seconds=te2))
+            if (parse_ts(ev2["start_time"]) - parse_ts(ev["end_time"])).total_seconds() >= 0:
+                evs.append(ev2)
         geop = {"model": "egm96.txt", "degree": rng.choice([0, 2, 4]), "order": rng.choice([0, 0, 2])}
         geop["order"] = min(geop["order"], geop["degree"])
         cfg = gen.base_config(start, step, n, [gen.engine_block(1, [sensor], [tgt])], model="special_perturbations", integrator=rng.choice(["RK45", "DOP853"]),
-                              truth_only=True, seed=1, geopotential=geop, events=[ev],
+                              truth_only=True, seed=1, geopotential=geop, events=evs,
                               perturbations={"third_bodies": rng.choice([[], [], ["moon"], ["sun", "moon"]]), "solar_radiation_pressure": False, "general_relativity": False})
         ncalls = rng.choice([1, 1, 2])
         plan = [{"seconds": total}] if ncalls == 1 else [{"seconds": step * rng.randrange(1, n)}, {"seconds": total}]
         return {"config": cfg, "plan": plan, "schedule": {"name": "seeded", "seed": rng.randrange(2**31), "retry_rate": rng.choice([0.0, 0.0, 0.3])}, "job_seed": 1}
 
     def sample_view(self, case):
-        ev = case["config"]["events"][0]
         S = parse_ts(case["config"]["time"]["start_timestamp"])
-        return {"time": case["config"]["time"], "plan": case["plan"], "event": {k: v for k, v in ev.items() if k not in ("scope", "scope_instance_id", "planned")},
-                "burn_seconds_after_start": [(parse_ts(ev["start_time"]) - S).total_seconds(), (parse_ts(ev["end_time"]) - S).total_seconds()],
+        return {"time": case["config"]["time"], "plan": case["plan"],
+                "events": [{k: v for k, v in ev.items() if k not in ("scope", "scope_instance_id", "planned")} for ev in case["config"]["events"]],
+                "burn_seconds_after_start": [[(parse_ts(ev["start_time"]) - S).total_seconds(), (parse_ts(ev["end_time"]) - S).total_seconds()] for ev in case["config"]["events"]],
                 "integrator": case["config"]["propagation"]["integration_method"], "geopotential": case["config"]["geopotential"]}
 
     def run(self, case: dict) -> dict:
@@ -124,9 +143,8 @@ class C15(Check):
         cfg = case["config"]
         res["key"] = jdigest([cfg["time"], cfg["events"], cfg["geopotential"], cfg["perturbations"], cfg["propagation"]["integration_method"]])
         S, step, out, n = time_info(case)
-        ev = cfg["events"][0]
-        ts = (parse_ts(ev["start_time"]) - S).total_seconds()
-        te = (parse_ts(ev["end_time"]) - S).total_seconds()
+        burns = sorted(((parse_ts(e["start_time"]) - S).total_seconds(), (parse_ts(e["end_time"]) - S).total_seconds(), e) for e in cfg["events"])
+        ts, te, ev = burns[0]
         ctx = drive(case)
         try:
             if ctx.error is not None:
@@ -144,20 +162,20 @@ class C15(Check):
 
             def rhs(t, y, on):
                 d = dyn._differentialEquation(t, y, check_collision=False)  # noqa: SLF001
-                if on:
+                if on is not None:
                     d = d.copy()
-                    d[3:] += thrust_acc(ev, y)
+                    d[3:] += thrust_acc(on, y)
                 return d
 
             # piecewise reference over the breakpoints
             t_end = nrun * step
-            cuts = sorted({0.0, t_end, *(float(k * step) for k in range(nrun + 1)), min(max(ts, 0.0), t_end), min(max(te, 0.0), t_end)})
+            cuts = sorted({0.0, t_end, *(float(k * step) for k in range(nrun + 1)), *(min(max(v, 0.0), t_end) for b3 in burns for v in b3[:2])})
             ref = {0: x0}
             x = x0.copy()
             for a, b in zip(cuts[:-1], cuts[1:]):
                 if b <= a:
                     continue
-                on = (a >= ts - 1e-9) and (b <= te + 1e-9)
+                on = next((e3 for (s3, t3, e3) in burns if a >= s3 - 1e-9 and b <= t3 + 1e-9), None)
                 sol = solve_ivp(rhs, (a, b), x, method="DOP853", rtol=1e-12, atol=1e-14, args=(on,))
                 x = sol.y[:, -1]
                 kk = round(b / step)
@@ -174,17 +192,23 @@ class C15(Check):
                 if over(dp, lp) or over(dv, lv):
                     # how long did the engine really burn?  (ECI burns: delta-v / |a|)
                     extra = ""
-                    if ev["event_type"] == "finite_burn" and ev["thrust_frame"] == "eci":
+                    if len(burns) == 1 and ev["event_type"] == "finite_burn" and ev["thrust_frame"] == "eci":
                         a = np.array(ev["acc_vector"], dtype=float)
                         extra = f"; velocity excess along the thrust direction corresponds to {float((got[3:] - ref[k][3:]) @ a / (a @ a)):+.3f} s of extra thrust"
                     onb = abs(ts / step - round(ts / step)) < 1e-9, abs(te / step - round(te / step)) < 1e-9
-                    key = ("start-on-boundary" if onb[0] else "start-inside") + "/" + ("end-on-boundary" if onb[1] else "end-inside")
+                    key = ("start-on-boundary" if onb[0] else "start-inside") + "/" + ("end-on-boundary" if onb[1] else "end-inside") + ("/two-thrusts" if len(burns) > 1 else "")
                     viol.append({"clause": "burn-interval", "key": key,
-                                 "detail": f"{ev['event_type']} [{ts}s, {te}s] (step {step}s): truth at t={k * step}s is {dp:.3e} km / {dv:.3e} km/s from the reference that thrusts only inside the interval "
+                                 "detail": f"{' then '.join(f'{e3['event_type']} [{s3}s, {t3}s]' for s3, t3, e3 in burns)} (step {step}s): truth at t={k * step}s is {dp:.3e} km / {dv:.3e} km/s from the reference that thrusts only inside the interval "
                                            f"(limits {lp:.1e} / {lv:.1e}){extra}"})
                     break
             res["tolerances"]["truth_vs_reference_ratio_to_limit"] = [worst, 1.0]
             inside = ts < nrun * step and te > 0
+            if len(burns) > 1:
+                cnt["two_thrusts_on_one_target"] = 1
+                if abs(burns[1][0] - burns[0][1]) < 1e-9:
+                    cnt["second_thrust_starts_where_the_first_ends"] = 1
+                if burns[1][0] < nrun * step and int(burns[1][0] // step) == int((burns[0][1] - 1e-9) // step):
+                    cnt["second_thrust_starts_in_the_step_the_first_ends_in"] = 1
             res["nontrivial"] = inside
             cnt["steps"] = nrun
             cnt["burn_" + ev["event_type"] + "_" + ev.get("thrust_frame", ev.get("maneuver_type", ""))] = 1
@@ -208,6 +232,9 @@ class C15(Check):
             if not c.get("_shrunk_by", "").startswith("drop-event"):
                 yield c
         cfg = case["config"]
+        if len(cfg["events"]) > 1:
+            for i in range(len(cfg["events"])):
+                yield variant(case, f"drop-thrust-{i}", lambda c, i=i: c["config"]["events"].pop(i))
         if cfg["perturbations"]["third_bodies"]:
             yield variant(case, "no-third-bodies", lambda c: c["config"]["perturbations"].__setitem__("third_bodies", []))
         if cfg["geopotential"]["degree"]:
